@@ -19,6 +19,10 @@ file is untouched; every other directory entry is a temporary: for setContent a 
 crash-free run created and removed itself.  Finally the same operation is repeated without a crash
 on the left-over directory and must produce exactly the new content ("usable after reboot").
 
+Containment: every path handed to twisted lives under one mkdtemp() top and ALL target code (also the
+crash-free phases and the reboots) runs inside a FaultFS, which refuses — without executing — any
+mutating filesystem call outside that top and reports it as `filesystem-call-outside-scratch`.
+
 Guards: which of old/new survives is never constrained; expected new bytes for `sob` are taken from
 a crash-free save of the same object in a separate directory (pickle/aot output is deterministic for
 the same object in one process — verified per case, else the byte comparison is skipped and only the
@@ -374,7 +378,7 @@ def run_case(ctx, i):
 def run(ctx):
     if not selftest_or_inconclusive(ctx):
         return
-    for i in ctx.cases(300, 30000):
+    for i in ctx.cases(500, 20000):
         run_case(ctx, i)
 
 
